@@ -160,6 +160,9 @@ impl DataStorage {
 
     pub fn unstage(&mut self) -> Result<()> {
         self.stage.clear();
+        // The cache is filled as objects are staged: a discarded object must not stay
+        // readable (it is neither staged nor stored any more)
+        self.cache.lock().unwrap().clear();
         Ok(())
     }
 
